@@ -19,6 +19,7 @@ CLAIMED = {
  "C16": ("§6 C16", "The five ListOfDicts joins against a nested-loop first-match reference (None keys, renamed keys, overlapping payload keys) and aggregate against the partition into key classes, for ALL key/payload values within the bounds."),
  "C17": ("§6 C17", "Isolation: item contents identical after every non-modifying method and for every join's right-hand argument, deepcopy independence, for ALL item values. Obsolescence: all derivation histories of depth <= 2 (quick) / 3 (thorough) followed by one editing method and two uses of every node: obsolete flag and warn-once behaviour equal the ancestor oracle; outside the recorded known-finding region."),
  "C07": ("§6 C07", "All sixteen helpers in both calling forms against per-element oracles: exact formulas for count/count_unique/first/last/nth/min/max/sum/all/any/mode (NA policy, defaults, tie-break), and for mean/median/quantile/std/var the uninterpreted NumPy reducer applied to exactly the participating elements (or NaN below the required count) - for ALL element values, nth indices, q, drop_na and ddof settings and all group layouts within the bounds."),
+ "C08": ("§6 C08", "Solver-decided: for every accelerated helper and eligible dtype, DataFrame.aggregate with USE_NUMBA off and on (both implementations executed as Python source, Numba NA dispatch modelled by cell sort) yields the same values, missing positions and result dtype for ALL cell values, group layouts and helper arguments within the bounds; every path witness is replayed on the real Numba build in a fresh process. Observed only (no solver verdict): the order-of-first-use clause, by replaying all ordered selections of 2 (quick) / 3 (thorough) helpers in fresh processes with fresh JIT caches."),
  "C05": ("§6 C05", "For every pair of frames within the bounds and ALL key and payload cells, the five joins agree with a nested-loop first-match reference (missing keys never match, renamed keys, empty sides) and do not raise."),
 }
 m = {"version": 1, "setup_cmd": "./bootstrap.sh",
